@@ -3,7 +3,7 @@
 From Coq Require Import List Bool ZArith NArith.
 From PC Require Import Base.Atoms Base.Xml Model.SchemaSyntax Model.Schema Gen.Schema141
                        Model.Bookkeeping Model.EmitGrammar Model.SchemaIncl
-                       Model.EmitDoc Proofs.BookProofs Proofs.SchemaIncl Proofs.EmitConf Proofs.MeshBook.
+                       Model.EmitDoc Proofs.BookProofs Proofs.SchemaIncl Proofs.EmitConf Proofs.MeshBook Model.CtorDefaults Proofs.UserIds Proofs.CtorDefaults.
 Import ListNotations.
 
 (* ---- bookkeeping, for ALL models of a source / a primitive (Model/Bookkeeping.v: emit_source,
@@ -97,6 +97,59 @@ Proof.
   apply Nat.eqb_eq in H. now apply dup0_ids_unique.
 Qed.
 Print Assumptions C04_schema_valid.
+
+(* ids: the id attributes of the emitted document are exactly the user's ids (cameras, effects,
+   geometries with their sources, images, lights, materials, nodes, scenes) and the two kinds the
+   writer derives (array id of every source, id of <vertices>), in document order; newparams
+   carry sids, not ids.  So distinctness is a condition on the USER model. *)
+Theorem C04_emitted_ids : forall d, all_ids (emit d) = user_ids d.
+Proof. exact emitted_ids. Qed.
+Print Assumptions C04_emitted_ids.
+
+Theorem C04_user_ids_distinct : forall d, user_ids_distinct d = true -> ids_distinct d = true.
+Proof. exact user_ids_distinct_emitted. Qed.
+Print Assumptions C04_user_ids_distinct.
+
+(* C04_schema_valid with every hypothesis on the user model *)
+Theorem C04_schema_valid_user : forall lex d,
+  wf_content lex d = true -> user_ids_distinct d = true -> validate schema141 lex (emit d) = true.
+Proof.
+  intros lex d Hc Hi. apply C04_schema_valid. unfold wf_user. rewrite Hc. now apply C04_user_ids_distinct.
+Qed.
+Print Assumptions C04_schema_valid_user.
+
+(* constructor defaults (Model/CtorDefaults.v) as obligations of the model: a colour of up to four
+   numbers is written as four floats; <transparency> is always written, defaulted by the opaque
+   mode, and stays a float; a node without a name is written with name = id; a surface without a
+   format is written with the default format behind <init_from>.  [zero]/[one] are the runtime's
+   tokens of 0.0 and 1.0. *)
+Theorem C04_default_colour_padding : forall lex zero one l,
+  atom_ok lex SFloat (vtok_of_tok zero) = true -> atom_ok lex SFloat (vtok_of_tok one) = true ->
+  length l <= 4 -> forallb (atom_ok lex SFloat) (map vtok_of_tok l) = true ->
+  floats lex 4 (pad_colour zero one l) = true.
+Proof. intros. now apply colour_padded_ok. Qed.
+Print Assumptions C04_default_colour_padding.
+
+Theorem C04_default_transparency : forall lex zero one,
+  atom_ok lex SFloat (vtok_of_tok zero) = true -> atom_ok lex SFloat (vtok_of_tok one) = true ->
+  (forall id sid ps sh em am di sp shi rf rfy tr try_ ior z ds,
+     exists v, e_transparency (ctor_effect zero one id sid ps sh em am di sp shi rf rfy tr try_ ior z ds) = Some v /\
+               In (emit_prop a_transparency [] v)
+                  (xkids (emit_shader (ctor_effect zero one id sid ps sh em am di sp shi rf rfy tr try_ ior z ds)))) /\
+  (forall z o, oall (float_ok lex) o = true -> oall (float_ok lex) (default_transparency zero one z o) = true).
+Proof. intros lex zero one Hz Ho. split; [intros; apply transparency_always_written | intros; now apply transparency_default_ok]. Qed.
+Print Assumptions C04_default_transparency.
+
+Theorem C04_default_node_name : forall lex id ts kids,
+  xattr a_name (emit_snode (ctor_node id None ts kids)) = Some id /\
+  (is_ncname lex id = true -> is_ncname lex (node_name id None) = true).
+Proof. intros. apply node_name_default. Qed.
+Print Assumptions C04_default_node_name.
+
+Theorem C04_default_surface_format : forall fmt0 sid img,
+  exists s, xkids (emit_eparam (ctor_surface fmt0 sid img None)) = [s] /\ xkids s = [txt a_init_from img; txt a_format fmt0].
+Proof. intros. apply surface_format_default. Qed.
+Print Assumptions C04_default_surface_format.
 
 (* the bookkeeping clauses at the level of the whole <mesh> the writer model emits for a geometry
    (sources, <vertices>, redirected primitives): every failure counter of Model/Bookkeeping.v
@@ -199,7 +252,7 @@ Definition doc0 : doc :=
       (Some 1080%N).
 
 Example C04_schema_valid_nonvacuous :
-  wf_user lex0 doc0 = true /\ Nat.ltb 100 (xml_size (emit doc0)) = true /\ validate schema141 lex0 (emit doc0) = true /\
+  wf_user lex0 doc0 = true /\ user_ids_distinct doc0 = true /\ length (user_ids doc0) = 15 /\ Nat.ltb 100 (xml_size (emit doc0)) = true /\ validate schema141 lex0 (emit doc0) = true /\
   book_ok (emit doc0) = true.
 Proof. vm_compute. repeat split; reflexivity. Qed.
 
